@@ -64,6 +64,16 @@ def equal(a, b, path='', seen=None, depth=0):
             d.append(f'{path}: leg charges per index differ')
         if a.chinfo != b.chinfo:
             d.append(f'{path}: chinfo differs')
+        from . import gen as _gen
+        # whatever the format: the loaded leg must not claim more than is true
+        if (b.sorted and not _gen.spec_sorted(b.charges)) or (b.bunched and not _gen.spec_bunched(b.charges)):
+            d.append(f'{path}: loaded leg claims sorted={b.sorted}, bunched={b.bunched} for charges {b.charges.tolist()}')
+        if STRICT_LEGS:
+            # block-preserving formats (blocks, compact, pickle): the same blocks and the same cached flags
+            if not np.array_equal(a.slices, b.slices) or not np.array_equal(a.charges, b.charges):
+                d.append(f'{path}: block structure differs')
+            if bool(a.sorted) != bool(b.sorted) or bool(a.bunched) != bool(b.bunched):
+                d.append(f'{path}: flags differ: sorted {a.sorted} -> {b.sorted}, bunched {a.bunched} -> {b.bunched}')
         if hasattr(a, 'legs') != hasattr(b, 'legs'):
             d.append(f'{path}: pipe structure lost')
         elif hasattr(a, 'legs'):
@@ -145,6 +155,10 @@ def factories(rng):
     leg = gen.random_leg(rng, ci, nblocks=3, kind='generic')
     add(leg, 'generic')
     add(gen.random_leg(rng, ci, nblocks=3, kind='sorted-blocked'), 'sorted-blocked')
+    dup = gen.random_leg(rng, ci, nblocks=4, kind='dups')
+    add(dup.sort(bunch=False)[1], 'sorted, not bunched')          # flags differ from each other
+    add(dup.bunch()[1], 'bunched, not sorted')
+    add(ch.LegPipe([dup.sort(bunch=False)[1], gen.random_leg(rng, ci)], qconj=+1, sort=True, bunch=False), 'pipe sorted, not bunched')
     pipe = ch.LegPipe([leg, gen.random_leg(rng, ci)], qconj=-1)
     add(pipe)
     a = gen.random_array(rng, [leg, leg.conj(), gen.random_leg(rng, ci)], complex, labels=['a', 'b', 'c'])
@@ -198,6 +212,9 @@ def roundtrip_hdf5(obj, fmt=None):
             return hdf5_io.Hdf5Loader(f).load('data')
 
 
+STRICT_LEGS = False
+
+
 def run(rec):
     warnings.simplefilter('ignore')
     rng = np.random.default_rng(rec.seed + 17)
@@ -224,6 +241,7 @@ def run(rec):
                 rec.case((cname, note, fmt), True, sample=inp if cname.endswith('Array') and fmt == 'blocks' and not note else None)
                 if not ok:
                     continue
+                globals()['STRICT_LEGS'] = fmt != 'flat'
                 diffs = equal(obj, back, cname.split('.')[-1])
                 if diffs:
                     rec.violation(sig + ':not-equal', '; '.join(diffs[:4]), inp)
